@@ -34,7 +34,7 @@ pub fn scenarios(tier: Tier) -> Vec<Scenario> {
     let q = tier == Tier::Quick;
     let m = menu();
     let mut out = vec![];
-    for (name, k, nmenu, depth) in if q { vec![("k2-menu4", 2usize, 4usize, 7usize), ("k3-menu3", 3, 3, 8), ("inside-k2-menu3", 2, 3, 6)] } else { vec![("k2-menu6", 2, 6, 10), ("k3-menu4", 3, 4, 11), ("k3-menu6", 3, 6, 9), ("inside-k2-menu6", 2, 6, 7), ("inside-k3-menu3", 3, 3, 8)] } {
+    for (name, k, nmenu, depth) in if q { vec![("k2-menu4", 2usize, 4usize, 7usize), ("k3-menu3", 3, 3, 8), ("k4-menu2", 4, 2, 9), ("inside-k2-menu3", 2, 3, 6)] } else { vec![("k2-menu6", 2, 6, 10), ("k3-menu4", 3, 4, 11), ("k3-menu6", 3, 6, 9), ("k4-menu3", 4, 3, 9), ("inside-k2-menu6", 2, 6, 7), ("inside-k3-menu3", 3, 3, 8)] } {
         let mut alpha: Vec<Action> = vec![Action::OpenReader];
         for i in 0..k {
             alpha.push(Action::CloseReader(i));
